@@ -75,8 +75,20 @@ impl Check for C14 {
         let raw = t.chance(1, 5);
         cfg.avoid_leading_do_block = !raw;
         let prog = Gen::new(&mut t, cfg).program();
-        let a = SurfacePlan::default();
-        let b = random_surface(&mut t, !raw);
+        let mut a = SurfacePlan::default();
+        let mut b = random_surface(&mut t, !raw);
+        // a third of the programs are written in a random top-level order - the same one in both renderings, so that the
+        // two differ in sugar and layout only (the two spellings of a construct must agree wherever the construct stands)
+        if t.chance(1, 3) {
+            let n = prog.blobs.len() + prog.enums.len() + prog.globals.len();
+            let mut v: Vec<usize> = (0..n).collect();
+            for i in (1..n).rev() {
+                let j = t.below(i + 1);
+                v.swap(i, j);
+            }
+            a.order = Some(v.clone());
+            b.order = Some(v);
+        }
         let source_a = render(&prog, &a).text;
         let source_b = render(&prog, &b).text;
         Some(Case { prog, a, b, source_a, source_b })
@@ -189,7 +201,7 @@ impl Check for C14 {
         "cases: one random well-typed GenAST program rendered twice: default surface plan vs a random plan choosing, per site, the call \
          form (f(a, b) / f' a, b where the greedy argument list cannot swallow anything or in parentheses / a -> f(b) for plain-name \
          callees), `ret e` vs trailing expression, `loop do` vs `loop true do`, redundant parentheses, comment lines and trailing \
-         comments, blank lines, indentation (0-8 spaces or tab), line breaks after commas and before binary operators / arrows inside () [] {} and call parentheses (also inside the argument list of a parenthesised prime call), CRLF. \
+         comments, blank lines, indentation (0-8 spaces or tab), a random top-level order shared by both renderings (a third of the cases), line breaks after commas and before binary operators / arrows inside () [] {} and call parentheses (also inside the argument list of a parenthesised prime call), CRLF. \
          Oracle: both accepted and the emitted Lua is byte-identical after replacing the number in `Reached unreachable code on line N`. \
          non-trivial = >= 3 differing sites including a nested sugar (prime/arrow call inside another sugared call) or a sugared call \
          together with a line break inside brackets; distinct by case hash"
